@@ -6,10 +6,11 @@ sys.path.insert(0, V)
 props = [json.loads(l) for l in open(os.path.join(V, 'properties.jsonl'))]
 checks, na = [], []
 NOT_BUILT = {}
+READY = set(open(os.path.join(V, 'tools', 'ready.txt')).read().split())
 for p in props:
   pid = p['id']
   path = os.path.join(V, 'harness', 'props', pid.lower() + '.py')
-  if not os.path.exists(path) or not os.path.exists(os.path.join(V, 'coq', 'Props', pid + '.v')):
+  if pid not in READY or not os.path.exists(path) or not os.path.exists(os.path.join(V, 'coq', 'Props', pid + '.v')):
     na.append({'property_id': pid, 'reason': NOT_BUILT.get(pid, 'no check registered yet: the Coq model/theorems and correspondence harness for this property have not been built (see DESIGN.md section 5 for the planned design)')})
     continue
   src = open(path).read()
